@@ -387,6 +387,8 @@ pub fn cli(ctx: &Ctx) -> Stats {
         let inp_reused = sc.path("reads.fa");
         let first = mk(&mut rng, if reuse_input_path { &inp_reused } else if idx % 8 < 4 { &inp_long } else { &inp_short });
         let second = mk(&mut rng, if reuse_input_path { &inp_reused } else if idx % 8 < 4 { &inp_short } else { &inp_long });
+        // (same options in both runs of a reuse case: the strongest setting for anything keyed on the input path)
+        let second = if reuse_input_path { first.clone() } else { second };
         let second_fresh = if reuse_input_path { mk_same(&second.0, &inp_reused, if idx % 8 < 4 { &inp_short } else { &inp_long }) } else { second.0.clone() };
         if reuse_input_path {
             let _ = std::fs::copy(if idx % 8 < 4 { &inp_long } else { &inp_short }, &inp_reused);
@@ -521,19 +523,45 @@ pub fn killed(ctx: &Ctx) -> Stats {
         st.case(true, mix(idx) ^ hash_bytes(second.0.join(" ").as_bytes()));
         st.class(fam_name);
         let delay_ms = *rng.pick(&[2u64, 5, 10, 20, 40, 80, 150, 300]);
-        let case = || Json::obj().set("killed_after_ms", Json::Int(delay_ms as i128)).set("first", Json::s(first.0.join(" "))).set("second", Json::s(second.0.join(" "))).set("big_records", Json::u(big.len())).set("small_records", recs_json(&small));
+        let case = || Json::obj().set("killed_after_ms", Json::Int(delay_ms as i128)).set("or_file_size_limit_on_every_second_block_of_8_cases", Json::Bool((idx / 8) % 2 == 1)).set("first", Json::s(first.0.join(" "))).set("second", Json::s(second.0.join(" "))).set("big_records", Json::u(big.len())).set("small_records", recs_json(&small));
         // the interrupted run
         {
             let mut args = first.0.clone();
             args.push("-o".into());
             args.push(shared.clone());
-            let child = std::process::Command::new(ctx.cli_path()).args(&args).stdin(std::process::Stdio::null()).stdout(std::process::Stdio::null()).stderr(std::process::Stdio::null()).spawn();
+            let mut cmd = std::process::Command::new(ctx.cli_path());
+            cmd.args(&args).stdin(std::process::Stdio::null()).stdout(std::process::Stdio::null()).stderr(std::process::Stdio::null());
+            // second way of not finishing: the earlier run hits a file-size limit (quota / full disk) in the middle of
+            // writing — SIGXFSZ or a write error after exactly `fsize` bytes of some output or temporary file
+            let fsize_limit: Option<u64> = if (idx / 8) % 2 == 1 { Some(*rng.pick(&[4096u64, 20_000, 65_536, 300_000, 1 << 20])) } else { None };
+            if let Some(lim) = fsize_limit {
+                use std::os::unix::process::CommandExt;
+                unsafe {
+                    cmd.pre_exec(move || {
+                        let rl = libc::rlimit { rlim_cur: lim, rlim_max: lim };
+                        libc::setrlimit(libc::RLIMIT_FSIZE, &rl);
+                        Ok(())
+                    });
+                }
+                st.class("earlier run under a file-size limit");
+            }
+            let child = cmd.spawn();
             match child {
                 Ok(mut ch) => {
-                    std::thread::sleep(std::time::Duration::from_millis(delay_ms));
+                    if fsize_limit.is_some() {
+                        // let it run into the limit (or finish, if its output is small); a watchdog bounds the wait
+                        let t0 = std::time::Instant::now();
+                        while matches!(ch.try_wait(), Ok(None)) && t0.elapsed() < std::time::Duration::from_secs(20) {
+                            std::thread::sleep(std::time::Duration::from_millis(5));
+                        }
+                    } else {
+                        std::thread::sleep(std::time::Duration::from_millis(delay_ms));
+                    }
                     let running = matches!(ch.try_wait(), Ok(None));
                     let _ = ch.kill();
-                    let _ = ch.wait();
+                    let status = ch.wait().ok();
+                    let died = status.map_or(false, |s| !s.success());
+                    let running = running || (fsize_limit.is_some() && died);
                     if running {
                         not_finished.fetch_add(1, std::sync::atomic::Ordering::Relaxed);
                         st.class("earlier run killed before it finished");
